@@ -134,7 +134,7 @@ def run(chk):
 
 def judge(chk, q, desc):
     oc = q.get("outcome")
-    if oc in ("panic", "abort", "timeout"):
+    if oc in ("panic", "abort", "timeout", "not-run"):
         chk.violation(f"reader-{oc}", "lef21::parse", desc, {"msg": q.get("msg"), "loc": q.get("loc"), "text": q.get("text")})
         return
     f = q.get("facts", {})
